@@ -107,7 +107,7 @@ if tier == "thorough":
             d += one
     dates = all_dates()
     what = "every date 1583-01-01..9999-12-31"
-    per = 1
+    per = 0     # all dates x the 9 date forms alone (27.7M strings); times / fractions / offsets on the boundary dates below
 else:
     dates = list(isogen.interesting_dates(1583, 9999, 29)) + list(isogen.interesting_dates(9990, 9999, 1)) + list(isogen.interesting_dates(1583, 1590, 1)) + \
         list(isogen.interesting_dates(1996, 2030, 1))
@@ -117,6 +117,10 @@ sweep("iso_forms", isogen.cases(rng, dates, per),
       f"{what} x 9 date forms (calendar/ordinal/week, basic/extended, reduced) alone and with a seeded time structure x fraction 1..9 digits after '.' or ',' x offset form x {{T, space}}: "
       "parse_iso8601 returns exactly the date, time, microsecond (truncated) and offset the string was rendered from; pendulum.parse(exact=True) wraps it in the narrowest type",
       exhaustive=tier == "thorough")
+if tier == "thorough":
+    bd = list(isogen.interesting_dates(1583, 9999, 7))
+    sweep("iso_forms_with_times", isogen.cases(rng, bd, 4),
+          f"{len(bd)} month/year/ISO-week boundary dates (every 7th year) x 9 date forms x 4 seeded time structure / fraction / offset / separator choices: exact date, time, microsecond and offset")
 sweep("iso_times", isogen.time_cases(rng, 4000 if tier == "quick" else 200000),
       "time-only strings (T designator x 5 structures; no designator for extended structures; bare hh / hhmmss) x fractions x offsets: exact time and offset")
 
